@@ -15,14 +15,21 @@ open Carquet.Proofs.WriterTable Carquet.Proofs.WriterPages Carquet.Proofs.Writer
 
 /-! ### schema stage -/
 
-/-- what the schema must satisfy: flat REQUIRED / OPTIONAL columns; a FIXED_LEN_BYTE_ARRAY column
-has a positive length -/
+/-- what the schema must satisfy (flat REQUIRED / OPTIONAL / REPEATED columns): a
+FIXED_LEN_BYTE_ARRAY column has a positive length -/
 structure ColOk (c : Col) : Prop where
-  notRepeated : c.rep ≠ .repeated
   flbaLen : c.ptype = .flba → 0 < c.typeLen
 
-theorem maxRep_of_colOk {c : Col} (h : ColOk c) : c.maxRep = 0 := by
-  simp [Col.maxRep, h.notRepeated]
+/-- a column that is not REPEATED (hypothesis of the statements not yet lifted to REPEATED columns) -/
+def ColFlat (c : Col) : Prop := c.rep ≠ .repeated
+
+instance (c : Col) : Decidable (ColFlat c) := by unfold ColFlat; exact inferInstance
+
+theorem maxRep_of_flat {c : Col} (h : ColFlat c) : c.maxRep = 0 := by
+  simp [Col.maxRep, ColFlat] at h ⊢; exact h
+
+theorem maxRep_lt (c : Col) : c.maxRep < 2 ^ 32 := by
+  unfold Col.maxRep; split <;> decide
 
 theorem maxDef_le_one (c : Col) : c.maxDef < 2 ^ 32 := by
   unfold Col.maxDef; split <;> decide
@@ -45,7 +52,6 @@ theorem ptypeOf_code (t : PType) : ptypeOf t.code = some (specPType t) := by cas
 
 theorem leafInfosOf_leaf (c : Col) (h : ColOk c) :
     leafInfosOf (specLeafNode c) 0 0 [] = .ok [leafOf c] := by
-  have hrep := h.notRepeated
   have hfl := h.flbaLen
   unfold specLeafNode
   rw [leafInfosOf]
@@ -59,9 +65,9 @@ theorem leafInfosOf_leaf (c : Col) (h : ColOk c) :
       omega
   simp only [hcond, if_false]
   have hd : Schema.defInc (some (specRep c.rep)) = c.maxDef := by
-    cases hr : c.rep <;> simp [hr, specRep, Schema.defInc, Col.maxDef] at hrep ⊢
+    cases hr : c.rep <;> simp [specRep, Schema.defInc, Col.maxDef, hr]
   have hr : Schema.repInc (some (specRep c.rep)) = c.maxRep := by
-    cases hr : c.rep <;> simp [hr, specRep, Schema.repInc, Col.maxRep] at hrep ⊢
+    cases hr : c.rep <;> simp [specRep, Schema.repInc, Col.maxRep, hr]
   simp [leafOf, hd, hr]
 
 theorem leafInfosOfList_leaves : ∀ (cols : List Col), (∀ c ∈ cols, ColOk c) →
@@ -100,17 +106,47 @@ theorem drop_take_middle' {α : Type} (a b c : List α) (n : Nat) (hn : n = a.le
 
 theorem ptypeCode_spec (t : PType) : ptypeCode (specPType t) = t.code := by cases t <;> rfl
 
+/-- zip-style: the content of every chunk of a row group begins with repetition level 0 -/
+def FirstZip : List Col → List (List PageRec) → Prop
+  | c :: cs, p :: ps => FirstRepZero c (pagesData p) ∧ FirstZip cs ps
+  | _, _ => True
+
+/-- zip-style: every chunk of a row group holds `n` rows -/
+def RecsZip (n : Nat) : List Col → List (List PageRec) → Prop
+  | c :: cs, p :: ps => (pagesData p).recs c.maxRep = n ∧ RecsZip n cs ps
+  | _, _ => True
+
+theorem firstZip_of_zip : ∀ (cols : List Col) (pss : List (List PageRec)),
+    (∀ cd ∈ List.zip cols (pss.map pagesData), FirstRepZero cd.1 cd.2) → FirstZip cols pss
+  | [], _, _ => by simp [FirstZip]
+  | _ :: _, [], _ => by simp [FirstZip]
+  | c :: cs, p :: ps, h => by
+    refine ⟨h (c, pagesData p) (by simp), firstZip_of_zip cs ps (fun cd hcd => h cd ?_)⟩
+    simp only [List.map_cons, List.zip_cons_cons, List.mem_cons]
+    exact Or.inr hcd
+
+theorem recsZip_of_zip (n : Nat) : ∀ (cols : List Col) (pss : List (List PageRec)),
+    (∀ x ∈ List.zipWith (fun (c : Col) (d : ColData) => d.recs c.maxRep) cols (pss.map pagesData), x = n) →
+    RecsZip n cols pss
+  | [], _, _ => by simp [RecsZip]
+  | _ :: _, [], _ => by simp [RecsZip]
+  | c :: cs, p :: ps, h => by
+    refine ⟨h _ (by simp), recsZip_of_zip n cs ps (fun x hx => h x ?_)⟩
+    simp only [List.map_cons, List.zipWith_cons_cons, List.mem_cons]
+    exact Or.inr hx
+
 theorem readChunks_written (o : FileReal.Oracle) (cfg : Config) (hstrict : cfg.strictTiling = true) (codec : Nat)
     (hcodec : codec = 0 ∨ codec = 1 ∨ codec = 5 ∨ codec = 7) (footerStart : Nat) :
     ∀ (cols : List Col) (ms : List ChunkMeta) (pss : List (List PageRec)) (pos : Nat) (pre post : List UInt8),
       (∀ c ∈ cols, ColOk c) → AllChunks (deps o) codec ms pss → ChunksAt ms pos → ChunksFor codec cols ms →
       GroupOf (deps o) codec cols pss → GroupP (goodPred o) cols pss → (∀ ps ∈ pss, ∀ r ∈ ps, PageSmall r) →
+      FirstZip cols pss →
       pre.length = pos → 4 ≤ pos → pos + (groupBytes (deps o) pss).length ≤ footerStart →
       readChunks cfg (pre ++ groupBytes (deps o) pss ++ post) footerStart (cols.map leafOf) (ms.map cmOf) pos =
         .ok (List.zipWith specChunkOf cols (pss.map pagesData), pos + (groupBytes (deps o) pss).length)
-  | [], [], [], pos, pre, post, _, _, _, _, _, _, _, _, _, _ => by
+  | [], [], [], pos, pre, post, _, _, _, _, _, _, _, _, _, _, _ => by
     simp [readChunks, groupBytes]
-  | c :: cs, m :: ms, ps :: pss, pos, pre, post, hcols, hall, hat, hfor, hof, hgood, hsmall, hpre, h4, hfs => by
+  | c :: cs, m :: ms, ps :: pss, pos, pre, post, hcols, hall, hat, hfor, hof, hgood, hsmall, hfz, hpre, h4, hfs => by
     obtain ⟨⟨m1, m2, _, m4, m5⟩, hall'⟩ := hall
     obtain ⟨a1, hat'⟩ := hat
     obtain ⟨⟨f1, f2, _⟩, hfor'⟩ := hfor
@@ -123,8 +159,8 @@ theorem readChunks_written (o : FileReal.Oracle) (cfg : Config) (hstrict : cfg.s
     simp only [List.length_append] at hfs
     have ih := readChunks_written o cfg hstrict codec hcodec footerStart cs ms pss (pos + m.totalCompressed)
       (pre ++ pagesBytes (deps o) ps) post (fun x hx => hcols x (by simp [hx])) hall' hat' hfor' hof' hgood'
-      (fun x hx => hsmall x (by simp [hx])) (by simp [hpre, m2]) (by omega) (by rw [m2]; omega)
-    have hchunk := readChunk_written o cfg codec hcodec c (maxRep_of_colOk hck) (maxDef_le_one c) ps hfacts (cmOf m)
+      (fun x hx => hsmall x (by simp [hx])) hfz.2 (by simp [hpre, m2]) (by omega) (by rw [m2]; omega)
+    have hchunk := readChunk_written o cfg codec hcodec c (maxRep_lt c) (maxDef_le_one c) ps hfacts hfz.1 (cmOf m)
       rfl m4 rfl m1 pos
     have hfile : pre ++ (pagesBytes (deps o) ps ++ groupBytes (deps o) pss) ++ post =
         pre ++ pagesBytes (deps o) ps ++ (groupBytes (deps o) pss ++ post) := by simp [List.append_assoc]
@@ -146,10 +182,10 @@ theorem readChunks_written (o : FileReal.Oracle) (cfg : Config) (hstrict : cfg.s
     rw [m2] at ih
     rw [hfile2, ih]
     simp [Nat.add_assoc]
-  | [], _ :: _, _, _, _, _, _, _, _, hfor, _, _, _, _, _, _ => by simp [ChunksFor] at hfor
-  | _ :: _, [], _, _, _, _, _, _, _, hfor, _, _, _, _, _, _ => by simp [ChunksFor] at hfor
-  | [], [], _ :: _, _, _, _, _, hall, _, _, _, _, _, _, _, _ => by simp [AllChunks] at hall
-  | _ :: _, _ :: _, [], _, _, _, _, hall, _, _, _, _, _, _, _, _ => by simp [AllChunks] at hall
+  | [], _ :: _, _, _, _, _, _, _, _, hfor, _, _, _, _, _, _, _ => by simp [ChunksFor] at hfor
+  | _ :: _, [], _, _, _, _, _, _, _, hfor, _, _, _, _, _, _, _ => by simp [ChunksFor] at hfor
+  | [], [], _ :: _, _, _, _, _, hall, _, _, _, _, _, _, _, _, _ => by simp [AllChunks] at hall
+  | _ :: _, _ :: _, [], _, _, _, _, hall, _, _, _, _, _, _, _, _, _ => by simp [AllChunks] at hall
 
 /-! ### row groups -/
 
@@ -172,27 +208,52 @@ theorem chunksSize_eq_groupBytes (D : Deps) (codec : Nat) : ∀ (ms : List Chunk
   | [], _ :: _, h => by simp [AllChunks] at h
   | _ :: _, [], h => by simp [AllChunks] at h
 
+/-- the rows the reader counts in a chunk are the rows of the column's content -/
+theorem rowsOf_specChunkOf {o : FileReal.Oracle} {codec : Nat} {c : Col} (ps : List PageRec)
+    (h : ∀ r ∈ ps, PageFacts o codec c r) :
+    rowsOf (leafOf c).maxRep (specChunkOf c (pagesData ps)) = (pagesData ps).recs c.maxRep := by
+  obtain ⟨l1, l2⟩ := specReps_pagesData_length ps h
+  have hlen := specChunkOf_pagesData_length ps h
+  rw [sumRows_eq_rows ps h] at hlen
+  have hmap := specEntriesR_reps c.maxDef (specReps c (pagesData ps)) (specDefs c (pagesData ps)) (pagesData ps).vals
+    (l1.trans l2.symm)
+  have hmr : (leafOf c).maxRep = c.maxRep := rfl
+  unfold rowsOf ColData.recs
+  rw [hmr]
+  by_cases h0 : c.maxRep = 0
+  · simp [h0, hlen]
+  · simp only [h0, if_false]
+    have hr : specReps c (pagesData ps) = (pagesData ps).reps := by simp [specReps, h0]
+    rw [hr] at hmap
+    have hcount : ∀ es : List Entry,
+        (es.filter (fun e => e.rep == 0)).length = ((es.map (·.rep)).filter (· == 0)).length := by
+      intro es
+      induction es with
+      | nil => rfl
+      | cons e es ih =>
+        simp only [List.filter_cons, List.map_cons]
+        by_cases he : e.rep = 0 <;> simp [he, ih]
+    unfold specChunkOf
+    rw [hcount, hr, hmap]
+
 /-- the rows of every chunk of a written row group are the row group's `num_rows` -/
 theorem rows_check (o : FileReal.Oracle) (codec : Nat) (n : Nat) :
     ∀ (cols : List Col) (ms : List ChunkMeta) (pss : List (List PageRec)),
-      (∀ c ∈ cols, ColOk c) → AllChunks (deps o) codec ms pss →
+      AllChunks (deps o) codec ms pss →
       GroupOf (deps o) codec cols pss → GroupP (goodPred o) cols pss → (∀ ps ∈ pss, ∀ r ∈ ps, PageSmall r) →
-      (∀ ps ∈ pss, (pagesData ps).rows = n) →
+      RecsZip n cols pss →
       (List.zipWith (fun (l : LeafInfo) ch => rowsOf l.maxRep ch == n) (cols.map leafOf)
         (List.zipWith specChunkOf cols (pss.map pagesData))).all id = true
-  | [], _, _, _, _, _, _, _, _ => by simp
-  | _ :: _, _, [], _, _, _, _, _, _ => by simp
-  | c :: cs, [], _ :: _, _, hall, _, _, _, _ => by simp [AllChunks] at hall
-  | c :: cs, m :: ms, ps :: pss, hcols, hall, hof, hgood, hsmall, hrows => by
-    have ih := rows_check o codec n cs ms pss (fun x hx => hcols x (by simp [hx])) hall.2 hof.2 hgood.2
-      (fun x hx => hsmall x (by simp [hx])) (fun x hx => hrows x (by simp [hx]))
+  | [], _, _, _, _, _, _, _ => by simp
+  | _ :: _, _, [], _, _, _, _, _ => by simp
+  | c :: cs, [], _ :: _, hall, _, _, _, _ => by simp [AllChunks] at hall
+  | c :: cs, m :: ms, ps :: pss, hall, hof, hgood, hsmall, hrows => by
+    have ih := rows_check o codec n cs ms pss hall.2 hof.2 hgood.2
+      (fun x hx => hsmall x (by simp [hx])) hrows.2
     have hfacts : ∀ r ∈ ps, PageFacts o codec c r := fun r hr =>
       ⟨hof.1 r hr, hall.1.2.2.2.2 r hr, hgood.1 r hr, hsmall ps (by simp) r hr⟩
-    have hlen := specChunkOf_pagesData_length ps hfacts
-    rw [sumRows_eq_rows ps hfacts, hrows ps (by simp)] at hlen
-    have hmr : (leafOf c).maxRep = 0 := maxRep_of_colOk (hcols c (by simp))
     have h1 : (rowsOf (leafOf c).maxRep (specChunkOf c (pagesData ps)) == n) = true := by
-      simp [rowsOf, hmr, hlen]
+      rw [rowsOf_specChunkOf ps hfacts, hrows.1]; simp
     simp only [List.map_cons, List.zipWith_cons_cons, List.all_cons, ih, Bool.and_true, id, h1]
 
 theorem readRowGroups_written (o : FileReal.Oracle) (cfg : Config) (hstrict : cfg.strictTiling = true) (codec : Nat)
@@ -200,14 +261,15 @@ theorem readRowGroups_written (o : FileReal.Oracle) (cfg : Config) (hstrict : cf
     (hcols : ∀ c ∈ cols, ColOk c) :
     ∀ (gms : List RgMeta) (gs : List (List (List PageRec))) (pos : Nat) (pre post : List UInt8),
       AllGroups (deps o) codec gms gs → GroupsAt gms pos → (∀ g ∈ gms, ChunksFor codec cols g.chunks) →
-      (∀ g ∈ gs, GroupOf (deps o) codec cols g) → (∀ g ∈ gs, GroupP (goodPred o) cols g) → RowsZip gms gs →
-      (∀ g ∈ gs, ∀ ps ∈ g, (pagesData ps).rows = firstRows g) → (∀ g ∈ gs, ∀ ps ∈ g, ∀ r ∈ ps, PageSmall r) →
+      (∀ g ∈ gs, GroupOf (deps o) codec cols g) → (∀ g ∈ gs, GroupP (goodPred o) cols g) → RowsZip cols gms gs →
+      (∀ g ∈ gs, RecsZip (firstRecs cols (g.map pagesData)) cols g) → (∀ g ∈ gs, FirstZip cols g) →
+      (∀ g ∈ gs, ∀ ps ∈ g, ∀ r ∈ ps, PageSmall r) →
       pre.length = pos → 4 ≤ pos → pos + (dataBytes (deps o) gs).length ≤ footerStart →
       readRowGroups cfg (pre ++ dataBytes (deps o) gs ++ post) footerStart (cols.map leafOf) (gms.map rgMetaOf) pos =
         .ok (gs.map (groupTable cols), pos + (dataBytes (deps o) gs).length)
-  | [], [], pos, pre, post, _, _, _, _, _, _, _, _, _, _, _ => by
+  | [], [], pos, pre, post, _, _, _, _, _, _, _, _, _, _, _, _ => by
     simp [readRowGroups, dataBytes]
-  | gm :: gms, g :: gs, pos, pre, post, hall, hat, hfor, hof, hgood, hrz, hal, hsmall, hpre, h4, hfs => by
+  | gm :: gms, g :: gs, pos, pre, post, hall, hat, hfor, hof, hgood, hrz, hal, hfz, hsmall, hpre, h4, hfs => by
     obtain ⟨hall1, hall'⟩ := hall
     obtain ⟨_, a2, a3, _, hat'⟩ := hat
     obtain ⟨z1, hrz'⟩ := hrz
@@ -217,13 +279,13 @@ theorem readRowGroups_written (o : FileReal.Oracle) (cfg : Config) (hstrict : cf
     have ih := readRowGroups_written o cfg hstrict codec hcodec footerStart cols hcols gms gs (pos + gm.totalCompressed)
       (pre ++ groupBytes (deps o) g) post hall' hat' (fun x hx => hfor x (by simp [hx]))
       (fun x hx => hof x (by simp [hx])) (fun x hx => hgood x (by simp [hx])) hrz'
-      (fun x hx => hal x (by simp [hx])) (fun x hx => hsmall x (by simp [hx]))
+      (fun x hx => hal x (by simp [hx])) (fun x hx => hfz x (by simp [hx])) (fun x hx => hsmall x (by simp [hx]))
       (by simp [hpre, a3, hsz]) (by omega) (by rw [a3, hsz]; omega)
     have hchunks := readChunks_written o cfg hstrict codec hcodec footerStart cols gm.chunks g pos pre
       (dataBytes (deps o) gs ++ post) hcols hall1 a2 (hfor gm (by simp)) (hof g (by simp)) (hgood g (by simp))
-      (hsmall g (by simp)) hpre h4 (by omega)
-    have hrows := rows_check o codec gm.numRows cols gm.chunks g hcols hall1 (hof g (by simp)) (hgood g (by simp))
-      (hsmall g (by simp)) (fun ps hps => by rw [z1]; exact hal g (by simp) ps hps)
+      (hsmall g (by simp)) (hfz g (by simp)) hpre h4 (by omega)
+    have hrows := rows_check o codec gm.numRows cols gm.chunks g hall1 (hof g (by simp)) (hgood g (by simp))
+      (hsmall g (by simp)) (by rw [z1]; exact hal g (by simp))
     have hf1 : pre ++ (groupBytes (deps o) g ++ dataBytes (deps o) gs) ++ post =
         pre ++ groupBytes (deps o) g ++ (dataBytes (deps o) gs ++ post) := by simp [List.append_assoc]
     have hf2 : pre ++ (groupBytes (deps o) g ++ dataBytes (deps o) gs) ++ post =
@@ -236,8 +298,8 @@ theorem readRowGroups_written (o : FileReal.Oracle) (cfg : Config) (hstrict : cf
     simp only [hrows, Bool.not_true, Bool.false_eq_true, if_false]
     rw [← hf1, hf2, ih]
     simp [groupTable, Nat.add_assoc]
-  | [], _ :: _, _, _, _, hall, _, _, _, _, _, _, _, _, _, _ => by simp [AllGroups] at hall
-  | _ :: _, [], _, _, _, hall, _, _, _, _, _, _, _, _, _, _ => by simp [AllGroups] at hall
+  | [], _ :: _, _, _, _, hall, _, _, _, _, _, _, _, _, _, _, _ => by simp [AllGroups] at hall
+  | _ :: _, [], _, _, _, hall, _, _, _, _, _, _, _, _, _, _, _ => by simp [AllGroups] at hall
 
 /-! ### the whole file -/
 
@@ -255,7 +317,9 @@ theorem read_written (o : FileReal.Oracle) (codec : Nat) (hcodec : codec = 0 ∨
     (cols : List Col) (hne : cols ≠ []) (hcols : ∀ c ∈ cols, ColOk c) (ops : List Op) (createdBy : String)
     (file : List UInt8) (md : FooterData) (gs : List (List (List PageRec)))
     (hf : RunFacts (deps o) (goodPred o) cols codec createdBy ops file md gs)
-    (hal : ∀ g ∈ tableOf cols ops, ∀ d ∈ g, d.rows = (g.map (·.rows)).headD 0)
+    (hal : ∀ g ∈ tableOf cols ops, ∀ n ∈ List.zipWith (fun (c : Col) (d : ColData) => d.recs c.maxRep) cols g,
+      n = firstRecs cols g)
+    (hfirst : ∀ g ∈ tableOf cols ops, ∀ cd ∈ List.zip cols g, FirstRepZero cd.1 cd.2)
     (hsm : RunSmall md gs) (oracle : File.Oracle) :
     File.read file (strictTiling := true) (oracle := oracle) = .ok (specTableOf cols ops) := by
   -- the envelope
@@ -268,18 +332,19 @@ theorem read_written (o : FileReal.Oracle) (codec : Nat) (hcodec : codec = 0 ∨
   have hschema := schemaOf_written cols hne
   have hleaves := columnsOf_written cols hne hcols
   -- alignment of the rows of the columns of a row group
-  have hal' : ∀ g ∈ gs, ∀ ps ∈ g, (pagesData ps).rows = firstRows g := by
-    intro g hg ps hps
-    have hmem : g.map pagesData ∈ tableOf cols ops := by
-      rw [← hf.table]; exact List.mem_map.mpr ⟨g, hg, rfl⟩
-    have := hal _ hmem (pagesData ps) (List.mem_map.mpr ⟨ps, hps, rfl⟩)
-    simpa [firstRows, List.map_map, Function.comp_def] using this
+  have hmem : ∀ g ∈ gs, g.map pagesData ∈ tableOf cols ops := by
+    intro g hg
+    rw [← hf.table]; exact List.mem_map.mpr ⟨g, hg, rfl⟩
+  have hal' : ∀ g ∈ gs, RecsZip (firstRecs cols (g.map pagesData)) cols g :=
+    fun g hg => recsZip_of_zip _ cols g (hal _ (hmem g hg))
+  have hfz : ∀ g ∈ gs, FirstZip cols g :=
+    fun g hg => firstZip_of_zip cols g (hfirst _ (hmem g hg))
   -- row groups
   have hfile2 : file = File.magic ++ dataBytes (deps o) gs ++ (FileReal.footer md ++ File.leBytes 4 (FileReal.footer md).length ++ File.magic) := by
     rw [hfile]; simp [fileOfParts, List.append_assoc]
   have hrg := readRowGroups_written o ⟨true, oracle⟩ rfl codec hcodec (4 + (dataBytes (deps o) gs).length) cols hcols
     md.rowGroups gs 4 File.magic (FileReal.footer md ++ File.leBytes 4 (FileReal.footer md).length ++ File.magic)
-    hf.allGroups hf.groupsAt hf.chunksFor hf.groupOf hf.groupP hf.rowsZip hal' hsm.pages rfl (Nat.le_refl _) (Nat.le_refl _)
+    hf.allGroups hf.groupsAt hf.chunksFor hf.groupOf hf.groupP hf.rowsZip hal' hfz hsm.pages rfl (Nat.le_refl _) (Nat.le_refl _)
   rw [← hfile2] at hrg
   have hsum : ((md.rowGroups.map rgMetaOf).map (·.numRows)).sum = md.numRows := by
     rw [hf.numRows_eq, List.map_map]; rfl
